@@ -22,5 +22,56 @@ def gauge_schedules(chk, sd, binp):
     health_race.run(chk, sd, ["G"], {"C13"})
 
 
+def feature_paths(chk, sd, binp):
+    """breaker-rejected, breaker-counted (5xx / refused / aborted through the breaker) and rate-limited requests:
+    the sequential breaker model's walks become client requests against a balancer with breaker and limiter
+    enabled; the accounting identity is evaluated on a snapshot at the end of every walk"""
+    import breaker_common as bc
+    r = bc.tlc_with_cfg("MCBreaker", bc.gen_cfg_text([1], "CfgSys", False), "gen.cfg", workers=8, timeout=900)
+    ws, stats = vlib.walks(r, max_len=120)
+    scripts = []
+    for variant, errplan, rl in (("5xx", "s500", False), ("refused", "refuse", False), ("limited", "s500", True),
+                                 ("overlap", "s500", False)):
+        for j, w in enumerate(ws):
+            cf = w["cf"]
+            steps, rid = [], 0
+            for a in w["acts"]:
+                if a["a"] == "call":
+                    rid += 1
+                    steps.append({"a": "req", "id": rid, "client": "10.0.0.%d" % (1 + rid % 2), "plan": {"ok": "ok", "err": errplan, "panic": "abort"}[a["o"]]})
+                elif a["a"] == "tick":
+                    steps.append({"a": "tick", "n": 1})
+            if variant == "overlap":
+                # every model call is held inside its backend exchange while a second client arrives:
+                # in the half-open state the second one is what the breaker turns away (429)
+                steps, rid = [], 0
+                for a in w["acts"]:
+                    if a["a"] == "call":
+                        rid += 2
+                        out = {"ok": "ok", "err": errplan, "panic": "abort"}[a["o"]]
+                        steps += [{"a": "req", "id": rid - 1, "client": "10.0.0.1", "plan": "hold"},
+                                  {"a": "req", "id": rid, "client": "10.0.0.2", "plan": out},
+                                  {"a": "release", "id": rid - 1, "plan": out}]
+                    elif a["a"] == "tick":
+                        steps.append({"a": "tick", "n": 1})
+            steps.append({"a": "snap", "s": "end"})
+            cfg = {"strategy": "round_robin", "backends": [{"name": "b1", "w": 1}, {"name": "b2", "w": 1}],
+                   "passive": {"on": False, "thr": 1, "win": 1}, "active": {"on": False, "iv": 1},
+                   "cb": {"on": True, "ft": cf["ft"], "st": cf["st"], "mr": cf["mr"], "iv": cf["iv"], "to": cf["to"]}}
+            if rl:
+                cfg["rl"] = {"on": True, "max": 3, "refill": 3600}
+            scripts.append({"id": "feat-%s-%d-%d" % (variant, w["init"], j), "cfg": cfg, "steps": steps})
+    tp = pc.replay(binp, scripts, sd, "feat")
+    chk.cov["traces_validated_against_impl"] += len(scripts)
+    for s in scripts:
+        chk.count_case([s["id"]])
+    pc.judge(chk, tp, scripts, {"C13"}, sd, "feat")
+
+
+def extra(chk, sd, binp):
+    gauge_schedules(chk, sd, binp)
+    feature_paths(chk, sd, binp)
+
+
 def run(tier):
-    return pc.run_check("C13", tier, ("C13",), plans(tier), snap=True, extra=gauge_schedules)
+    return pc.run_check("C13", tier, ("C13",), plans(tier), snap=True, extra=extra)
